@@ -207,7 +207,15 @@ pub fn resolve_keys(specs: &[KeySpec]) -> Vec<Vec<u8>> {
 /// Content table: 0 = deletion marker, others = small blobs (hash of the bytes, len of the bytes).
 pub const CONTENTS: [&[u8]; 4] = [b"", b"x", b"y", b"zz"];
 
+/// Declared lengths for content indices 4..: the store never sees the content, so any length is a legal record
+/// (byte boundaries of the varint and of the fixed-width encodings, and the extremes).
+pub const WIDE_LENS: [u64; 8] = [1, 0x7F, 0x80, 0xFFFF, 0x1_0000, 0xFFFF_FFFF, 0x1_0000_0000, u64::MAX];
+
 pub fn content(c: u8) -> (Hash, u64) {
+    if c >= 4 && c < 4 + WIDE_LENS.len() as u8 {
+        // a hash that depends on the index only, with a wide declared length
+        return (Hash::new([b'w', c]), WIDE_LENS[c as usize - 4]);
+    }
     let data = CONTENTS[c as usize % CONTENTS.len()];
     if data.is_empty() {
         (Hash::EMPTY, 0)
